@@ -89,6 +89,7 @@ pub fn decode_op(u: &mut U, nkeys: u8, metas: u8, lifecycle: bool, damage: bool,
                         0 => DamageKind::Remove,
                         1 => DamageKind::ClearWritten,
                         2 => DamageKind::ZeroHeader,
+                        3 => DamageKind::Append { n: u.int_in_range(1u16..=9000).unwrap_or(100), fill: u.arbitrary().unwrap_or(0) },
                         _ => DamageKind::Truncate { class: u.int_in_range(0u8..=9).unwrap_or(0), frac: u.arbitrary().unwrap_or(0) },
                     };
                     dmg.push(Damage { sel: u.arbitrary().unwrap_or(0), kind });
